@@ -233,6 +233,33 @@ func rulesC14(w *World, o *Out) {
 			if a.Parent() != f {
 				continue
 			}
+			// a helper introduced later that stamps the relayer onto a message it is handed: the "literal" is
+			// completed at each of the helper's call sites
+			if bp, isBP := baseOf(a.Addr).(*ssa.Parameter); isBP && isNewHelper(f) && len(ctxSites[f]) > 0 {
+				pa, isPa := canon(a.Val).(*ssa.Parameter)
+				var pr *ssa.Parameter
+				for _, x := range rs {
+					if x.Parent() == f && baseOf(x.Addr) == ssa.Value(bp) {
+						pr, _ = canon(x.Val).(*ssa.Parameter)
+					}
+				}
+				if isPa && pr != nil && pa.Parent() == f && pr.Parent() == f {
+					ia, ir := paramIndex(f, pa), paramIndex(f, pr)
+					for _, site := range ctxSites[f] {
+						args := site.Common().Args
+						if ia >= len(args) || ir >= len(args) {
+							continue
+						}
+						nLit++
+						label := w.FuncKey(TopFunc(site.Parent())) + "|Message literal"
+						checkPair(site.Parent(), args[ia], args[ir], w.Pos(site.Pos()), label)
+						if _, isP := canon(args[ia]).(*ssa.Parameter); !isP {
+							o.Check("C14.R1", label+"|built only after a successful pick", GuardErrNil(site, isPick) != nil, w.Pos(site.Pos()), "the message must be constructed only when PickValidatorForMessage returned no error")
+						}
+					}
+					continue
+				}
+			}
 			if _, isAlloc := baseOf(a.Addr).(*ssa.Alloc); !isAlloc {
 				continue
 			}
